@@ -9,6 +9,7 @@ Python semantics assumed (A-python): mathematical integers, CPython evaluation o
 no operator overloading other than on TT (resolved to the sidecar contracts), `is`/`==` on None/bool/str constants.
 """
 import ast
+import os
 import copy
 import time
 import z3
@@ -158,7 +159,7 @@ class Executor:
         if isinstance(cond, bool):
             return cond
         s = z3.Solver()
-        s.set('timeout', 3000)
+        s.set('timeout', int(os.environ.get('VERIF_FEAS_TIMEOUT_MS', '700')))
         from vt.e1 import calls as _calls
         for a in list(self.ctx.axioms) + list(_calls.AXIOMS):
             s.add(a)
@@ -961,6 +962,12 @@ class Executor:
             a2, b2 = a.snapshot(), b.snapshot()
             a2.to_fn(), b2.to_fn()
             la, lb = zi(a2.length), zi(b2.length)
+            sa, sb_ = getattr(a, 'slice_of', None), getattr(b, 'slice_of', None)
+            if sa is not None and sb_ is not None:
+                # slices of two lists: quantify over the absolute index of the first base list, so that the solver can
+                # instantiate the equality by matching on base(t) (arithmetic inside a pattern would block E-matching)
+                (ba, a0, a1), (bb, b0, b1) = sa, sb_
+                return z3.And(la == lb, FA(a0, a0 + la, lambda t: self.equal(ba.fn(t), bb.fn(t - a0 + b0), state, line), name='t'))
             return z3.And(la == lb, FA(0, la, lambda j: self.equal(a2.fn(j), b2.fn(j), state, line)))
         if isinstance(a, SNone) or isinstance(b, SNone):
             other = b if isinstance(a, SNone) else a
